@@ -178,9 +178,13 @@ func VerifC06_DenseSolveOperandKinds() {
 // depends on the values of x only. Cheap where the exact-real identity is out
 // of the solver's reach (Cholesky update n >= 2: Drotg square roots).
 func VerifC06_UpdateKindsF() {
-	n := verifChoose("n", 1, verifParam("c06kfn", 3))
-	kind := verifChoose("xkind", 1, 2)
 	which := verifChoose("op", 0, 1)
+	nmax := verifParam("c06kfn", 1) // Cholesky update: path count explodes at n = 2 (Drotg comparisons)
+	if which == 1 {
+		nmax = verifParam("c06kfln", 2)
+	}
+	n := verifChoose("n", 1, nmax)
+	kind := verifChoose("xkind", 1, 2)
 	verifC06stubCond()
 	xd := verifFloats("x", n)
 	alpha := verifFloat("alpha")
